@@ -1,6 +1,7 @@
 package rules
 
 import (
+	"go/types"
 	"go/token"
 	"strings"
 
@@ -710,7 +711,7 @@ func (c *Ctx) adp(which map[string]bool) {
 			r := p.Events[last].Results[2]
 			ok := false
 			why := ""
-			for _, o := range ef.of(r) {
+			for _, o := range ef.ofOn(p, r) {
 				for k := range o.Classes {
 					switch {
 					case k == "external:Persistence.List" || k == "external:Persistence.Load":
@@ -925,6 +926,61 @@ func (c *Ctx) adp(which map[string]bool) {
 		} else {
 			a.failAt(c.P.Pos(ad.Pos()), "cleanSequence and the PUBREL→PUBLISH continuity test of AdoptSession disagree on what 'adjacent' means (n−p==1: %v/%v, n==0: %v/%v, p==publishIDMask: %v/%v): at the 14-bit roll-over one of them sees a gap the other does not", s1, s2, z1, z2, m1, m2)
 		}
+		// the warning leaves cleanSequence: it is appended to what a pointer
+		// parameter points at (or handed back as a result), not to a copy of
+		// the caller's slice
+		wr := c.acc("ADP-8", clean, "gap-warning-reaches-the-caller")
+		for _, b := range c.regionBlocks(clean) {
+			for _, ins := range b.Instrs {
+				call, ok := ins.(*ssa.Call)
+				if !ok || call.Type().String() != "[]error" {
+					continue
+				}
+				if bl, isB := call.Call.Value.(*ssa.Builtin); !isB || bl.Name() != "append" {
+					continue
+				}
+				out := false
+				var follow func(v ssa.Value, d int)
+				follow = func(v ssa.Value, d int) {
+					if d > 4 || v.Referrers() == nil {
+						return
+					}
+					for _, r := range *v.Referrers() {
+						switch x := r.(type) {
+						case *ssa.Store:
+							if x.Val != v {
+								continue
+							}
+							addr := x.Addr
+							if pr, isP := addr.(*ssa.Parameter); isP {
+								if _, ptr := pr.Type().Underlying().(*types.Pointer); ptr {
+									out = true
+								}
+							}
+							// a result slot (named result, or spilled because of a defer)
+							if al, isA := addr.(*ssa.Alloc); isA {
+								for _, lr := range *al.Referrers() {
+									if ld, isL := lr.(*ssa.UnOp); isL {
+										follow(ld, d+1)
+									}
+								}
+							}
+						case *ssa.Return:
+							out = true
+						case *ssa.Phi:
+							follow(x, d+1)
+						}
+					}
+				}
+				follow(call, 0)
+				if out {
+					wr.pass()
+				} else {
+					wr.failAt(c.P.Pos(call.Pos()), "the warning about a dropped prefix is appended to a slice that stays inside %s (its own copy of the caller's slice header): AdoptSession abandons the records without telling the application", call.Parent().Name())
+				}
+			}
+		}
+		wr.done(1, "every warning is stored through the pointer parameter or returned")
 		adj2 := c.acc("ADP-8", clean, "scan-decides-adjacency-exactly(test-vectors)")
 		c.adp8Adjacency(clean, adj2)
 		adj2.done(12, "for each representative pair an iteration keeps adjacent records and reports a gap otherwise")
